@@ -239,10 +239,16 @@ namespace sqf::runtime
         sqf::runtime::instruction_set::iterator peek() const { bool flag; return peek(flag); }
         sqf::runtime::instruction_set::iterator peek(bool& success) const
         {
-            auto pos = m_position >= m_instruction_set.size() ? m_instruction_set.size() - 1 : m_position + 1;
-            auto it = m_instruction_set.begin() + pos;
-            success = it != m_instruction_set.end();
-            return it;
+            // The next instruction is the first one for a frame that has not started yet; there is none for an
+            // empty or finished frame.
+            auto pos = m_position == position_invalid ? 0 : m_position + 1;
+            if (m_position != position_invalid && m_position >= m_instruction_set.size() || pos >= m_instruction_set.size())
+            {
+                success = false;
+                return m_instruction_set.end();
+            }
+            success = true;
+            return m_instruction_set.begin() + pos;
         }
 
         bool bubble_variable() const { return m_bubble_variable; }
